@@ -337,6 +337,9 @@ type c08Step struct {
 	Reads int    `json:"reads,omitempty"`
 	Hold  bool   `json:"hold,omitempty"` // reader: obtain the accessor, then wait for the gate before reading
 	Gate  bool   `json:"gate,omitempty"` // writer: wait until every holding reader has its accessor, open the gate, go
+	// reader (with Hold): leave the gate together with the other readers and make the FIRST read an axis half of the
+	// lower/right half of the square (index >= size/2: served from the lazily opened parity file)
+	Parity bool `json:"parity,omitempty"`
 }
 
 type c08Flight struct {
@@ -361,9 +364,11 @@ type c08Env struct {
 	flights []atomic.Pointer[c08Flight]
 	hung    atomic.Bool
 
-	pfx    string        // prefix of the histogram names ("race_" in the race-detector run)
-	holdCh chan struct{} // one token per reader that has its accessor and waits for the gate
-	gateCh chan struct{} // closed by the writer marked Gate once every holding reader has its accessor
+	pfx     string        // prefix of the histogram names ("race_" in the race-detector run)
+	nHold   int           // readers with Hold in the round's scripts
+	arrived atomic.Int32  // readers that have passed the gate (second stage of the barrier of the Parity readers)
+	holdCh  chan struct{} // one token per reader that has its accessor and waits for the gate
+	gateCh  chan struct{} // closed by the writer marked Gate once every holding reader has its accessor
 }
 
 // c08Patience bounds the waits of the harness on its OWN events (gate, eviction goroutines); it is not an oracle.
@@ -440,14 +445,7 @@ func (e *c08Env) do(g int, st c08Step, rng *zv.Rand) {
 		}
 	}
 	if st.Gate {
-		need := 0
-		for _, sc := range e.cfg.Scripts {
-			for _, x := range sc {
-				if x.Hold {
-					need++
-				}
-			}
-		}
+		need := e.nHold
 		timeout := time.After(c08Patience)
 	wait:
 		for ; need > 0; need-- {
@@ -459,6 +457,9 @@ func (e *c08Env) do(g int, st c08Step, rng *zv.Rand) {
 			}
 		}
 		close(e.gateCh)
+	}
+	if st.Kind == "gate" { // nothing but the gate
+		return
 	}
 	op.Inv = e.clock.Add(1)
 	end := e.track(g, st.Kind, st.H)
@@ -510,8 +511,22 @@ func (e *c08Env) do(g int, st c08Step, rng *zv.Rand) {
 		case <-time.After(c08Patience):
 			e.zr.Count("harness", "reader gave up waiting for the gate")
 		}
-		for j := rng.Intn(300); j > 0; j-- {
-			runtime.Gosched()
+		if st.Parity {
+			// second stage: the gate wakes the readers one after the other; they leave together once all are running
+			// (bounded: with fewer processors than readers they go as they come)
+			e.arrived.Add(1)
+			for t0, spins := time.Now(), 0; int(e.arrived.Load()) < e.nHold; spins++ {
+				if spins%64 == 63 {
+					if time.Since(t0) > 2*time.Millisecond {
+						break
+					}
+					runtime.Gosched()
+				}
+			}
+		} else {
+			for j := rng.Intn(300); j > 0; j-- {
+				runtime.Gosched()
+			}
 		}
 	}
 	if acc == nil {
@@ -520,6 +535,9 @@ func (e *c08Env) do(g int, st c08Step, rng *zv.Rand) {
 	// the reader keeps the accessor while the others remove / re-put / evict, and checks every byte
 	for i := 0; i < st.Reads; i++ {
 		kind := rng.Intn(9)
+		if st.Parity && i == 0 {
+			kind = 4 // axis half with index >= size/2
+		}
 		end := e.track(g, "read-after-"+st.Kind, st.H)
 		what, bad := c08Read(ctx, acc, b, rng, kind)
 		end()
@@ -970,9 +988,9 @@ func (e *c08Env) drain() {
 		return
 	}
 	var after []string
-	for i := 0; i < 40; i++ { // finalizers run in their own goroutine after a collection
+	for i := 0; i < 10; i++ { // finalizers run in their own goroutine after a collection
 		runtime.GC()
-		time.Sleep(5 * time.Millisecond)
+		time.Sleep(20 * time.Millisecond)
 		if after = count(); len(after) == 0 {
 			break
 		}
@@ -1101,7 +1119,7 @@ func c08Round(t *testing.T, zr *zv.Run, cfg c08Cfg, g *zv.Group, reuse map[strin
 	}
 	if e == nil {
 		var err error
-		if e, err = c08NewEnv(t, zr, cfg, 16); err != nil {
+		if e, err = c08NewEnv(t, zr, cfg, 32); err != nil {
 			t.Fatal(err)
 		}
 		if reuse != nil {
@@ -1111,6 +1129,15 @@ func c08Round(t *testing.T, zr *zv.Run, cfg c08Cfg, g *zv.Group, reuse map[strin
 	e.cfg = cfg
 	e.pfx = c08Pfx
 	e.holdCh, e.gateCh = make(chan struct{}, 64), make(chan struct{})
+	e.arrived.Store(0)
+	e.nHold = 0
+	for _, sc := range cfg.Scripts {
+		for _, x := range sc {
+			if x.Hold {
+				e.nHold++
+			}
+		}
+	}
 	var t1, t2, t3 time.Time
 	if os.Getenv("VERIF_C08_DEBUG") != "" {
 		defer func() {
@@ -1120,7 +1147,7 @@ func c08Round(t *testing.T, zr *zv.Run, cfg c08Cfg, g *zv.Group, reuse map[strin
 	if e.s.stripLock.byHeight(e.blocks[0].h) != e.s.stripLock.byHeight(e.blocks[len(e.blocks)-1].h) {
 		zr.Violation("harness-stripes", "the heights no longer share a lock stripe: stripe count changed", cfg)
 	}
-	if cfg.Shape == "reput" {
+	if cfg.Shape == "reput" || cfg.Shape == "parityrace" {
 		// sequential and tiny: with the collector off no finalizer can hide a dropped descriptor, the oracle is deterministic
 		defer debug.SetGCPercent(debug.SetGCPercent(-1))
 	}
@@ -1182,6 +1209,29 @@ func c08Plans(r *zv.Run, race bool) []c08Cfg {
 		kinds := []string{"put", "putq4"}
 		reput = append(reput, c08Cfg{Recent: (i / 4) % 3, Cached: 1, Ks: []int{2, 2, 2}, Seed: root.U64(), Shape: "reput",
 			Pre: []c08Step{{Kind: kinds[i%2], H: 0}}, Scripts: [][]c08Step{{{Kind: kinds[(i/2)%2], H: 0}, {Kind: "get", H: 0, Reads: 2}}}})
+	}
+
+	// (0b) directed: the lazy once-only open of the parity file.  A block stored in full, N readers obtain the SAME
+	//      file-backed accessor through the cached store (recent cache off, so that no in-memory square is served), are
+	//      released together and make their first read in the parity half; then reads of any kind, close, removal, and
+	//      the descriptor count with the collector off.  An accessor that opens the parity file more than once keeps
+	//      only the last handle: the others stay open (sig fd-leak-until-gc) and the race detector sees the overwrite.
+	var parity []c08Cfg
+	nParity := r.N(32, 400)
+	if race && !r.Thorough() {
+		nParity = 12 // the instrumented binary needs ~10x the time per round, and its windows are that much wider
+	}
+	for i, n := 0, nParity; i < n; i++ {
+		// three heights = three independent accessors per round, all kept by the cached store at once
+		cfg := c08Cfg{Recent: 0, Cached: 3, Ks: []int{2 << (i % 2), 2, 2}, Seed: root.U64(), Shape: "parityrace",
+			Pre:     []c08Step{{Kind: "putq4", H: 0}, {Kind: "putq4", H: 1}, {Kind: "putq4", H: 2}},
+			Scripts: [][]c08Step{{{Kind: "gate", Gate: true}}}}
+		for h := 0; h < 3; h++ {
+			for j, readers := 0, 6+(i+h)%3; j < readers; j++ {
+				cfg.Scripts = append(cfg.Scripts, []c08Step{{Kind: "cget", H: h, Reads: 2, Hold: true, Parity: true}})
+			}
+		}
+		parity = append(parity, cfg)
 	}
 
 	// (1) micro rounds: 3 goroutines x 2-3 operations over 2 heights; the recorded histories go to Coq
@@ -1270,6 +1320,9 @@ func c08Plans(r *zv.Run, race bool) []c08Cfg {
 	for _, c := range reput { // first: the first violation of a signature is the one the driver writes as the replay
 		all = append(all, slot{0, c})
 	}
+	for _, c := range parity { // early and in full: cheap, and not to be cut by the time budget
+		all = append(all, slot{0, c})
+	}
 	for _, sh := range shapes {
 		for i, c := range sh {
 			all = append(all, slot{(float64(i) + 0.5) / float64(len(sh)), c})
@@ -1330,7 +1383,7 @@ func c08Main(t *testing.T, race bool) {
 	plans := c08Plans(r, race)
 	done, micro := 0, 0
 	for _, cfg := range plans {
-		if time.Now().After(deadline) {
+		if time.Now().After(deadline) && cfg.Shape != "reput" && cfg.Shape != "parityrace" { // those come first and are cheap: never cut
 			break
 		}
 		var ru map[string]*c08Env
